@@ -7,16 +7,16 @@ package main
 // and no solver is involved.
 
 import (
-	"time"
-	"os"
 	"fmt"
 	"go/constant"
 	"go/token"
 	"go/types"
 	"math/big"
+	"os"
 	"sort"
 	"strconv"
 	"strings"
+	"time"
 
 	"golang.org/x/tools/go/ssa"
 )
@@ -47,10 +47,10 @@ type Event struct {
 	Ctx    string
 	Seq    int
 	Depth  int
-	InFn   *ssa.Function // function whose body contains the instruction
+	InFn   *ssa.Function    // function whose body contains the instruction
 	Binds  map[string]*Term // contents of closure-captured cells at call time (key: alloc term key)
-	InHOF  string // non-empty: executed inside the function argument of this higher-order callee (e.g. a goroutine body)
-	HOFSeq int    // sequence number of the higher-order call event that runs it
+	InHOF  string           // non-empty: executed inside the function argument of this higher-order callee (e.g. a goroutine body)
+	HOFSeq int              // sequence number of the higher-order call event that runs it
 }
 
 type Summary struct {
@@ -124,26 +124,26 @@ func (s *state) clone() *state {
 }
 
 type Engine struct {
-	prog       *ssa.Program
-	fset       *token.FileSet
-	modPrefix  string
-	maxDepth   int
-	loopBound  int
-	maxPaths   int
+	prog      *ssa.Program
+	fset      *token.FileSet
+	modPrefix string
+	maxDepth  int
+	loopBound int
+	maxPaths  int
 	// scalarLoopsOnce: loops ranging over a slice or array of strings/numbers are unrolled once whatever the loop bound
 	scalarLoopsOnce bool
-	funcByName map[string]*ssa.Function
-	out        []Summary
-	root       *ssa.Function
-	opaque     map[string]bool  // canonical callee names never inlined
-	globalInit map[string]*Term // initial values of package-level variables that are never reassigned after init (key: gaddr term key)
-	uniqueImpl func(*types.Func) *ssa.Function // the single production implementation of an interface method in the module, if any
-	maxRec     int              // how many recursive activations of one function may be inlined
-	stub map[string][]*Term // callee -> fixed results (composition with an outcome class of the callee)
-	hofMethod  map[string]string // higher-order callee taking an interface value -> the method of it that is run
-	hof        map[string]int   // opaque higher-order callee -> index of the function argument it runs (modelled as one synchronous call)
-	bind       map[string]*Term // term key -> replacement (composition presets)
-	stats      struct{ paths, pruned, loopcut int }
+	funcByName      map[string]*ssa.Function
+	out             []Summary
+	root            *ssa.Function
+	opaque          map[string]bool                 // canonical callee names never inlined
+	globalInit      map[string]*Term                // initial values of package-level variables that are never reassigned after init (key: gaddr term key)
+	uniqueImpl      func(*types.Func) *ssa.Function // the single production implementation of an interface method in the module, if any
+	maxRec          int                             // how many recursive activations of one function may be inlined
+	stub            map[string][]*Term              // callee -> fixed results (composition with an outcome class of the callee)
+	hofMethod       map[string]string               // higher-order callee taking an interface value -> the method of it that is run
+	hof             map[string]int                  // opaque higher-order callee -> index of the function argument it runs (modelled as one synchronous call)
+	bind            map[string]*Term                // term key -> replacement (composition presets)
+	stats           struct{ paths, pruned, loopcut int }
 }
 
 func (e *Engine) inModule(fn *ssa.Function) bool {
@@ -1076,8 +1076,8 @@ func (e *Engine) doCall(s *state, fr *frame, v *ssa.Call, c *ssa.CallCommon) boo
 }
 
 var repeatingHOF = map[string]bool{
-	"github.com/cenkalti/backoff/v4.Retry":               true,
-	"github.com/cenkalti/backoff/v4.RetryNotify":         true,
+	"github.com/cenkalti/backoff/v4.Retry":                true,
+	"github.com/cenkalti/backoff/v4.RetryNotify":          true,
 	"github.com/cenkalti/backoff/v4.RetryNotifyWithTimer": true,
 }
 
@@ -1817,10 +1817,10 @@ func sortedKeys(m map[string]*Term) []string {
 
 // nonNilCtor lists functions whose (error/pointer) result is never nil. One reason per entry.
 var nonNilCtor = map[string]bool{
-	"fmt.Errorf": true, // always allocates a *wrapError/*fmtError
-	"errors.New": true, // always allocates
-	"google.golang.org/grpc/status.Error":  true, // non-OK codes only are used in this repo (checked by rule NOTFOUND-EXACT)
-	"google.golang.org/grpc/status.Errorf": true, // idem
+	"fmt.Errorf":                               true, // always allocates a *wrapError/*fmtError
+	"errors.New":                               true, // always allocates
+	"google.golang.org/grpc/status.Error":      true, // non-OK codes only are used in this repo (checked by rule NOTFOUND-EXACT)
+	"google.golang.org/grpc/status.Errorf":     true, // idem
 	"github.com/cenkalti/backoff/v4.Permanent": true, // wraps a non-nil error (argument checked never-nil by the C13 rule)
 }
 
@@ -1859,10 +1859,10 @@ func nilCompare(a, b *Term) (equal bool, known bool) {
 
 // successResults: calls whose listed results are non-nil whenever their error result (the last one) is nil.
 var successResults = map[string][]int{
-	"golang.org/x/mod/sumdb/note.Sign":                           {1}, // the signed note
-	"golang.org/x/mod/sumdb/note.Open":                           {1},
-	"github.com/transparency-dev/formats/log.ParseCheckpoint":    {1, 3}, // checkpoint and note (result 2 is the remaining bytes)
-	"(*database/sql.DB).Begin":                                   {1},
+	"golang.org/x/mod/sumdb/note.Sign":                        {1}, // the signed note
+	"golang.org/x/mod/sumdb/note.Open":                        {1},
+	"github.com/transparency-dev/formats/log.ParseCheckpoint": {1, 3}, // checkpoint and note (result 2 is the remaining bytes)
+	"(*database/sql.DB).Begin":                                {1},
 }
 
 // contradictsContract: f claims that a success result of one of those calls is nil although the path already established
